@@ -295,7 +295,7 @@ def handle : List String → String
     | some dl, some tl, some f, some adds => pwObs dl tl f adds
     | _, _, _, _ => "bad-op"
   | ["order", variant, seed] =>
-    if ["backup", "prune", "copy", "tiny", "tinyfail", "backupfail"].contains variant ∧ seed.toNat?.isSome then "ok" else "bad-op"
+    if ["backup", "prune", "copy", "tiny", "tinyfail", "backupfail", "bigbackup"].contains variant ∧ seed.toNat?.isSome then "ok" else "bad-op"
   | ["repo", variant, seed] =>
     if ["backup", "prune-fast", "prune-copy", "prune-all", "copy", "merge"].contains variant ∧ seed.toNat?.isSome then "ok" else "bad-op"
   | ["repair", variant, seed] =>
